@@ -1,8 +1,10 @@
-\* every text of <= 3 tokens / lines for the four kinds (sortlist string, server CSV, hosts file, aliases file)
+\* every text of <= 3 tokens / lines for the four kinds (sortlist string, server CSV, hosts file, aliases file);
+\* <= 2 tokens for the numeric kinds (csvnum, scope, sortnum: ConfigNum.tla)
 SPECIFICATION Spec
 CONSTANTS
   Kinds <- AllKinds
   MaxToks = 3
+  NumMaxToks = 2
   Emit = TRUE
-INVARIANTS InvFilesLineIndependent InvSettersInRange EmitScenario
+INVARIANTS InvFilesLineIndependent InvSettersInRange InvNumInRange EmitScenario
 CHECK_DEADLOCK FALSE
